@@ -76,3 +76,124 @@ package websockets
 //@   requires conn != nil && conn.clientMessages != nil
 //@   send clientMessages
 //@     assert[C12:close-frame-queued-first] arg0 == conn.clientMessages && arg1 != nil && arg1.Type == 8
+
+// ---- the shim endpoints (C12, C13, C09) ----
+// Every handler commits exactly one status from {200, 400, 408, 500}; on an error status nothing else is written.
+
+// open, inner handler (wrapped by the session handler): the only peer ever dialled is ws://<configured backend host>;
+// the client-supplied URL contributes path and query only (C13); the request headers are handed on as they are (C09).
+//@ func createShimChannel$1 props(C13,C12,C09,C07)
+//@   requires w != nil && r != nil && r.URL != nil && r.Header != nil && rwWrites[w] == 0
+//@   ghost dials int = 0
+//@   ghost tgt string = ""
+//@   call (*url.URL).String
+//@     assert[C13:target-is-ws-on-the-backend-host] targetURL.Scheme == "ws" && targetURL.Host == host && targetURL.Opaque == "" && targetURL.User == nil
+//@     assert[C13:only-path-and-query-from-the-client] targetURL.Path == r.URL.Path && targetURL.RawPath == r.URL.RawPath && targetURL.RawQuery == r.URL.RawQuery
+//@     do tgt = ret0
+//@   call NewConnection
+//@     assert[C13:dial-only-the-forced-target] dials == 0 && arg1 == tgt
+//@     assert[C09:handshake-headers-are-the-requests] arg2 == r.Header
+//@     do dials = dials + 1
+//@   ensures[C12:open-status] rwWrites[w] >= 1 && (rwStatus[w] == 200 || rwStatus[w] == 500)
+//@   ensures[C12:open-error-writes-once] rwStatus[w] != 200 ==> rwWrites[w] == 1
+
+// open, outer handler: the request URL is replaced by the parsed body and nothing else of the request changes.
+//@ func createShimChannel$2 props(C13,C12,C07)
+//@   requires w != nil && r != nil && r.Body != nil && r.Header != nil && rwWrites[w] == 0 && openWebsocketHandler != nil
+//@   ghost handed int = 0
+//@   call (http.Handler).ServeHTTP
+//@     assert[C13:hand-on-the-same-request-with-the-parsed-url] handed == 0 && arg0 == openWebsocketHandler && arg1 == w && arg2 == r && r.URL == targetURL && targetURL != nil
+//@     assert[C13:rest-of-the-request-untouched] r.Header == old(r.Header) && r.Host == old(r.Host) && r.Method == old(r.Method) && r.Body == old(r.Body)
+//@     do handed = handed + 1
+//@   ensures[C12:open-parse-errors] handed == 0 ==> rwWrites[w] == 1 && (rwStatus[w] == 400 || rwStatus[w] == 500)
+
+// close: unknown session 400; otherwise the session is removed from the table, its connection closed, and 200 answered.
+//@ func createShimChannel$3 props(C12,C07)
+//@   requires w != nil && r != nil && r.Body != nil && rwWrites[w] == 0
+//@   ghost found bool = false
+//@   ghost deleted bool = false
+//@   ghost closedConn bool = false
+//@   call (*sync.Map).Load
+//@     assert[C12:lookup-the-named-session] arg0 == connections && typeis(arg1, "string") && ifaceStr(arg1) == msg.ID
+//@     do found = ret1
+//@   call (*sync.Map).Delete
+//@     assert[C12:remove-the-named-session] found && arg0 == connections && ifaceStr(arg1) == msg.ID
+//@     do deleted = true
+//@   call (*Connection).Close
+//@     assert[C12:close-the-looked-up-connection] found && deleted && arg0 == conn
+//@     do closedConn = true
+//@   ensures[C12:close-status] rwWrites[w] >= 1 && (rwStatus[w] == 200 || rwStatus[w] == 400 || rwStatus[w] == 500)
+//@   ensures[C12:close-unknown-session-is-400] !found && rwStatus[w] != 500 ==> rwStatus[w] == 400
+//@   ensures[C12:close-success-closes-backend] rwStatus[w] == 200 ==> found && deleted && closedConn
+//@   ensures[C12:close-error-writes-once] rwStatus[w] != 200 ==> rwWrites[w] == 1 && !closedConn
+
+// data: the messages of the request are handed to their sessions in array order, stopping at the first failure.
+//@ func createShimChannel$4 props(C11,C12,C07)
+//@   requires w != nil && r != nil && r.Body != nil && r.Header != nil && rwWrites[w] == 0
+//@   ghost sent int = 0
+//@   ghost failed bool = false
+//@   call (*sync.Map).Load
+//@     assert[C12:lookup-the-named-session] !failed && arg0 == connections && typeis(arg1, "string") && ifaceStr(arg1) == msg.ID && msg == msgs[idx] && sent == idx
+//@   call (*Connection).SendClientMessage
+//@     assert[C11:forward-in-array-order] !failed && sent == idx && arg0 == conn && arg1 == msg.Message && msg == msgs[idx] && arg2 == enableWebsocketInjection
+//@     do failed = ret0 != nil
+//@     do sent = sent + ite(ret0 == nil, 1, 0)
+//@   ensures[C12:data-status] rwWrites[w] >= 1 && (rwStatus[w] == 200 || rwStatus[w] == 400 || rwStatus[w] == 500)
+//@   ensures[C11:all-forwarded-on-success] rwStatus[w] == 200 ==> !failed
+//@   ensures[C12:data-error-writes-once] rwStatus[w] != 200 ==> rwWrites[w] == 1
+//@   loop 1
+//@     invariant[C12:header-copy] rwWrites[w] == 0 && injectedHeaders != nil
+//@   loop 2
+//@     invariant[C11:data-progress] sent == idx + 1 && !failed && rwWrites[w] == 0
+
+// poll: unknown session 400; read error 400 and the session is dropped; timeout 408; otherwise 200 with the messages.
+//@ func createShimChannel$5 props(C12,C11,C07)
+//@   requires w != nil && r != nil && r.Body != nil && rwWrites[w] == 0
+//@   ghost found bool = false
+//@   ghost readErr bool = false
+//@   ghost gotNil bool = false
+//@   ghost polled bool = false
+//@   ghost deleted bool = false
+//@   call (*sync.Map).Load
+//@     assert[C12:lookup-the-named-session] arg0 == connections && typeis(arg1, "string") && ifaceStr(arg1) == msg.ID
+//@     do found = ret1
+//@   call (*Connection).ReadServerMessages
+//@     assert[C12:poll-the-looked-up-connection] found && arg0 == conn && !polled
+//@     do polled = true
+//@     do readErr = ret1 != nil
+//@     do gotNil = ret1 == nil && ret0 == nil
+//@   call (*sync.Map).Delete
+//@     assert[C12:drop-only-a-dead-session] polled && readErr && arg0 == connections && ifaceStr(arg1) == msg.ID
+//@     do deleted = true
+//@   ensures[C12:poll-status] rwWrites[w] >= 1 && (rwStatus[w] == 200 || rwStatus[w] == 400 || rwStatus[w] == 408 || rwStatus[w] == 500)
+//@   ensures[C12:poll-unknown-session-is-400] !found && rwStatus[w] != 500 ==> rwStatus[w] == 400
+//@   ensures[C12:poll-closed-session-is-400-and-dropped] polled && readErr ==> rwStatus[w] == 400 && deleted
+//@   ensures[C12:poll-timeout-is-408] polled && gotNil ==> rwStatus[w] == 408
+//@   ensures[C12:poll-success-is-200] polled && !readErr && !gotNil && rwStatus[w] != 500 ==> rwStatus[w] == 200
+//@   ensures[C12:poll-error-writes-once] rwStatus[w] != 200 ==> rwWrites[w] == 1
+
+// NewConnection: dials exactly the given URL with the given headers minus the websocket handshake fields; the relay
+// goroutines are verified as units of their own.
+//@ func NewConnection props(C13,C09,C11,C12,C07)
+//@   requires header != nil
+//@   assigns nothing
+//@   go-opaque NewConnection$1
+//@   go-opaque NewConnection$2
+//@   go-opaque NewConnection$3
+//@   ghost dials int = 0
+//@   call (*websocket.Dialer).Dial
+//@     assert[C13:dial-the-given-url-once] dials == 0 && arg1 == targetURL
+//@     do dials = dials + 1
+//@   call stripWSHeader
+//@     assert[C09:handshake-from-the-given-headers] arg0 == header
+//@   ensures[C12:connection-or-error] (r1 == nil ==> r0 != nil && fresh(r0) && r0.clientMessages != nil && r0.serverMessages != nil && r0.done != nil && r0.protocolVersion == 0) && (r1 != nil ==> r0 == nil)
+
+// stripWSHeader: the result holds exactly the given fields except the five websocket handshake names; nothing is added
+// (so a stripped Authorization stays stripped, C09).
+//@ pure wsName(k string) bool = k == "Upgrade" || k == "Connection" || k == "Sec-Websocket-Key" || k == "Sec-Websocket-Version" || k == "Sec-Websocket-Extensions"
+//@ func stripWSHeader props(C09,C07)
+//@   assigns nothing
+//@   ensures[C09:nothing-added-nothing-else-dropped] r0 != nil && fresh(r0) && forall_str(k, in(k, r0) <==> (header != nil && in(k, header) && !wsName(k))) && forall_str(k, in(k, r0) ==> r0[k] == header[k])
+//@   loop 1
+//@     assigns mapof(result)
+//@     invariant[C09:strip-progress] result != nil && !allocated0(result) && forall_str(k, in(k, result) <==> (in(k, header) && visited[k] && !wsName(k))) && forall_str(k, in(k, result) ==> result[k] == header[k])
